@@ -175,7 +175,7 @@ class Feeder:
         for f in self.files:
             f.close()
         self.files = []
-        self.samples = [s for _, s in sorted(self.samples)[:3]]
+        self.samples = [s for _, s in sorted(self.samples, key=lambda x: x[0])[:3]]
 
     def features(self, c):
         ft = self.feat
@@ -237,7 +237,7 @@ class Feeder:
                 self.nontrivial += 1
         if h % 1009 == 7 and nt:      # a few samples, chosen by content
             self.samples.append((h, {"tree": describe(c["t"]), "allowed_answers": c["acc"][:3], "root_partitions": c["np"], "family": c["fam"]}))
-            self.samples = sorted(self.samples)[:3]
+            self.samples = sorted(self.samples, key=lambda x: x[0])[:3]
         f = self.files[h % len(self.files)]
         for prof in profiles(c["t"], h, self.every, c.get("dev", [])):
             hc = {"id": cid * 4 + prof, "prof": prof, "t": c["t"], "acc": c["acc"], "ord": c["ord"], "np": c["np"],
